@@ -25,18 +25,21 @@ package participle
 //@   ensures result.apply == nil && result.deepestError == nil && result.deepestErrorDepth == 0 && result.depth == 0 && result.trace == nil && result.allowTrailing == false
 
 //@ func (*parseContext).Branch [C02 C01 C13]
+//@   frame-tags C09
 //@   fresh result
 //@   ensures result != nil && fresh(result) && result.PeekingLexer == p.PeekingLexer && result.apply == nil && len(result.apply) == 0
 //@   ensures result.lookahead == p.lookahead && result.deepestErrorDepth == p.deepestErrorDepth && result.deepestError == p.deepestError
 //@   ensures result.caseInsensitive == p.caseInsensitive && result.allowTrailing == p.allowTrailing && result.trace == p.trace && result.depth == p.depth
 
 //@ func (*parseContext).Defer [C02 C01]
+//@   frame-tags C09
 //@   modifies p.apply
 //@   ensures len(p.apply) == len(old(p.apply)) + 1 && forall(k, 0, len(old(p.apply)), p.apply[k] == old(p.apply[k]))
 //@   ensures p.apply[len(p.apply)-1] != nil && fresh(p.apply[len(p.apply)-1]) && fresh(p.apply)
 //@   ensures p.apply[len(p.apply)-1].tokens == tokens && p.apply[len(p.apply)-1].strct == strct && p.apply[len(p.apply)-1].field == field && p.apply[len(p.apply)-1].fieldValue == fieldValue
 
 //@ func (*parseContext).Accept [C02 C01 C13]
+//@   frame-tags C09
 //@   requires branch != nil && p != branch
 //@   ensures errOK(old(p.deepestError)) && errOK(branch.deepestError) ==> errOK(p.deepestError) [C06]
 //@   modifies p.apply, p.PeekingLexer, p.deepestError, p.deepestErrorDepth
@@ -48,6 +51,7 @@ package participle
 //@   ensures branch.apply == old(branch.apply) && branch.PeekingLexer == old(branch.PeekingLexer)
 
 //@ func (*parseContext).MaybeUpdateError [C06 C13]
+//@   frame-tags C09
 //@   modifies p.deepestError, p.deepestErrorDepth
 //@   ensures errOK(old(p.deepestError)) && errOK(err) ==> errOK(p.deepestError)
 //@   ensures p.deepestErrorDepth == max(old(p.deepestErrorDepth), p.cursor)
@@ -72,6 +76,7 @@ package participle
 // Stop: the exact commit threshold of the property ("abandoned only if it consumed no more than the lookahead"),
 // checked with machine-integer overflow obligations on the threshold arithmetic.
 //@ func (*parseContext).Stop [C13 C01 C02]
+//@   frame-tags C09
 //@   check-overflow
 //@   requires branch != nil && p != branch
 //@   requires @assumed 0 <= p.cursor && p.cursor <= 9223372036854775807 && 0 <= branch.cursor && branch.cursor <= 9223372036854775807
@@ -92,6 +97,7 @@ package participle
 // printTrace only writes the trace stream and ctx.depth, which no contract mentions (C15: tracing cannot
 // influence the result). The closure it returns restores depth.
 //@ func (*parseContext).printTrace [C15 C06]
+//@   frame-tags C09
 //@   requires pcInv(p) && n != nil
 //@   modifies p.depth
 
@@ -154,6 +160,7 @@ package participle
 // <identifier>: matches iff the first token from the raw cursor that is EOF, of the referenced type or not elided
 // has the referenced type; consumes through it; captures its text as written.
 //@ func (*reference).Parse [C10 C01 C06 C02]
+//@   frame-tags C09
 //@   implements node.Parse
 //@   ensures err == nil
 //@   ensures out == nil ==> ctx.Checkpoint == old(ctx.Checkpoint) && forall(k, old(ctx.rawCursor), old(ctx.nextCursor)+1, !refMatch(r, ctx.tokens[k]))
@@ -162,6 +169,7 @@ package participle
 //@   before call reflect.ValueOf#1: assert token.Type != lexer.EOF ==> ctx.rawCursor == cursor + 1 [C10 C01]
 
 //@ func (*literal).Parse [C10 C01 C06 C02]
+//@   frame-tags C09
 //@   implements node.Parse
 //@   ensures err == nil
 //@   ensures out == nil ==> ctx.Checkpoint == old(ctx.Checkpoint) && forall(k, old(ctx.rawCursor), old(ctx.nextCursor)+1, !litMatch(l, ctx, ctx.tokens[k]))
@@ -171,6 +179,7 @@ package participle
 
 // !expr: the child runs on a branch that is never adopted; on success exactly one token is taken with Next.
 //@ func (*negation).Parse [C01 C02 C10 C06]
+//@   frame-tags C09
 //@   implements node.Parse
 //@   use wfNegation(n) at entry
 //@   ensures len(ctx.apply) == len(old(ctx.apply))
@@ -179,6 +188,7 @@ package participle
 
 // (?= expr) / (?! expr): never consumes, never defers.
 //@ func (*lookaheadGroup).Parse [C01 C02 C06]
+//@   frame-tags C09
 //@   implements node.Parse
 //@   use wfLookahead(l) at entry
 //@   ensures ctx.Checkpoint == old(ctx.Checkpoint) && len(ctx.apply) == len(old(ctx.apply))
@@ -186,6 +196,7 @@ package participle
 
 // Capture "@expr": exactly one deferred capture iff the child produced a value; it targets the enclosing struct.
 //@ func (*capture).Parse [C01 C02 C10 C11 C06]
+//@   frame-tags C09
 //@   implements node.Parse
 //@   use wfCapture(c) at entry
 //@   ensures err == nil && out != nil ==> len(ctx.apply) > len(old(ctx.apply))
@@ -205,6 +216,7 @@ package participle
 // setField: what is proved here is panic-freedom of its own index expressions and the error shape; the
 // reflection calls are opaque (their own panics, e.g. Set on mismatched types, are outside this framework).
 //@ func setField [C17 C06]
+//@   frame-tags C09
 //@   ensures result != nil ==> implements(result, Error) [C06]
 //@   allow-kind typeassert "type assertions on values obtained through reflection (guarded by reflect Implements checks)"
 //@   assume call reflect.Type.Implements#1: arg0 != nil
@@ -233,6 +245,7 @@ package participle
 // Apply(from): applies exactly the captures deferred since the list held `from` entries, in order, and drops
 // them; earlier entries (deferred by enclosing productions) are kept untouched.
 //@ func (*parseContext).Apply [C02 C17 C01]
+//@   frame-tags C09
 //@   requires 0 <= from && from <= len(p.apply) && forall(k, from, len(p.apply), p.apply[k] != nil)
 //@   modifies p.apply
 //@   ensures len(p.apply) == from && forall(k, 0, from, p.apply[k] == old(p.apply[k])) && &p.apply[0] == &old(p.apply)[0] && cap(p.apply) == cap(old(p.apply))
@@ -248,6 +261,7 @@ package participle
 //@   requires n != nil
 //@   ensures n.next != s
 //@ func (*sequence).Parse [C01 C02 C06 C13]
+//@   frame-tags C09
 //@   implements node.Parse
 //@   use wfSequence(n) at loop 1
 //@   use seqAcyclic(s, n) at loop 1
@@ -263,6 +277,7 @@ package participle
 // Ordered choice: alternatives in index order, each on a fresh branch; the first that matches is adopted;
 // a failing one commits the whole choice only through Stop.
 //@ func (*disjunction).Parse [C01 C02 C06 C13]
+//@   frame-tags C09
 //@   implements node.Parse
 //@   use wfDisjunction(d) at entry
 //@   allow-panic 1 "documented grammar-bug panic (an alternative matched without consuming); excluded by C06's premise"
@@ -275,6 +290,7 @@ package participle
 // Groups: ( e ), ( e )?, ( e )*, ( e )+, ( e )!. Iterations run on fresh branches that are adopted when they
 // succeed; a failing iteration ends the repetition unless Stop commits to it.
 //@ func (*group).Parse [C01 C02 C06 C13]
+//@   frame-tags C09
 //@   implements node.Parse
 //@   ensures g.mode == groupMatchNonEmpty && err == nil ==> ctx.rawCursor > old(ctx.rawCursor) && len(out) > 0 [C01]
 //@   use wfGroup(g) at entry
@@ -294,6 +310,7 @@ package participle
 //@   requires wf(iface(u))
 //@   ensures wf(iface(&u.disjunction))
 //@ func (*strct).Parse [C11 C02 C01 C06 C17]
+//@   frame-tags C09
 //@   implements node.Parse
 //@   use wfStrct(s) at entry
 //@   ensures len(ctx.apply) == len(old(ctx.apply))
@@ -313,6 +330,7 @@ package participle
 //@   loop 1 decreases len(u.members) - rangeindex
 
 //@ func (*union).Parse [C01 C02 C06]
+//@   frame-tags C09
 //@   implements node.Parse
 //@   modifies family(reflect.Value)
 //@   use wfUnion(u) at entry
@@ -326,6 +344,7 @@ package participle
 // parseInto looks the root node up in the parser's type table through reflection. That the table holds a
 // well-formed node for the root type is established by Build and is an unchecked assumption here.
 //@ func (*Parser[G]).parseInto [C06 C01]
+//@   frame-tags C09
 //@   requires ctx != nil && pcInv(ctx) && errOK(ctx.deepestError)
 //@   requires @assumed uf("fn__reflect.Value_.Kind_r0", "Int", rv) == reflect.Ptr
 //@   modifies ctx.PeekingLexer, ctx.apply, ctx.deepestError, ctx.deepestErrorDepth, ctx.depth
@@ -336,6 +355,7 @@ package participle
 
 // parseOne: the whole input must be consumed unless trailing input is allowed; the error is the deepest one.
 //@ func (*Parser[G]).parseOne [C06 C01 C15]
+//@   frame-tags C09
 //@   requires ctx != nil && pcInv(ctx) && errOK(ctx.deepestError)
 //@   modifies ctx.PeekingLexer, ctx.apply, ctx.deepestError, ctx.deepestErrorDepth, ctx.depth
 //@   ensures errOK(result) && pcInv(ctx) && ctx.tokens == old(ctx.tokens) && ctx.elide == old(ctx.elide)
@@ -345,6 +365,7 @@ package participle
 // mapping wrapper), so the panic below is unreachable for a built parser: the precondition is the Parser
 // invariant Build establishes (assumed at the entry points, established by the constructor).
 //@ func (*Parser[G]).getElidedTypes [C06 C15]
+//@   frame-tags C09
 //@   requires @assumed p.lex != nil && forall(k, 0, len(p.elide), has(symsOf(p.lex), p.elide[k]))
 //@   loop 1 invariant -1 <= rangeindex && rangeindex < len(p.elide) && symbols == symsOf(p.lex)
 //@   loop 1 decreases len(p.elide) - rangeindex
@@ -366,6 +387,7 @@ package participle
 //@   ensures result == bitsOf(kind)
 
 //@ func conform [C17 C06]
+//@   frame-tags C09
 //@   requires t != nil
 //@   ensures err != nil ==> out == nil
 //@   loop 1 invariant -1 <= rangeindex && rangeindex < len(values)
@@ -406,6 +428,7 @@ package participle
 // ParseFromLexer: whatever path is taken, the caller's lexer ends up at the position the parse reached
 // (the first token it did not consume), and a parse error still comes with a non-nil AST.
 //@ func (*Parser[G]).ParseFromLexer [C15 C06 C01]
+//@   frame-tags C09
 //@   requires lex != nil && plInv(lex)
 //@   modifies *lex
 //@   ensures plInv(lex) && lex.tokens == old(lex.tokens) && lex.elide == old(lex.elide)
@@ -422,6 +445,7 @@ package participle
 // Entry points (C15): each one lexes the same (filename, text) with the parser's own definition, upgrades the
 // lexer with the parser's elision list and hands it, with the caller's options, to ParseFromLexer.
 //@ func (*Parser[G]).parse [C15 C06]
+//@   frame-tags C09
 //@   requires lex != nil
 //@   requires @assumed p.lex != nil && forall(k, 0, len(options), options[k] != nil)
 //@   ensures errOK(err) || uf("lexer_error", "Bool", err) [C06]
@@ -429,24 +453,28 @@ package participle
 //@   before call (*participle.Parser[G]).ParseFromLexer#1: assert arg1 == peeker && arg2 == options [C15]
 
 //@ func (*Parser[G]).ParseString [C15 C06]
+//@   frame-tags C09
 //@   requires @assumed p.lex != nil && forall(k, 0, len(options), options[k] != nil)
 //@   before call StringDefinition.LexString#1: assert arg1 == filename && arg2 == s [C15]
 //@   before call Definition.Lex#1: assert arg1 == filename [C15]
 //@   before call (*participle.Parser[G]).parse#1: assert arg1 == lex && arg2 == options [C15]
 
 //@ func (*Parser[G]).ParseBytes [C15 C06]
+//@   frame-tags C09
 //@   requires @assumed p.lex != nil && forall(k, 0, len(options), options[k] != nil)
 //@   before call BytesDefinition.LexBytes#1: assert arg1 == filename && arg2 == b [C15]
 //@   before call Definition.Lex#1: assert arg1 == filename [C15]
 //@   before call (*participle.Parser[G]).parse#1: assert arg1 == lex && arg2 == options [C15]
 
 //@ func (*Parser[G]).Parse [C15 C06]
+//@   frame-tags C09
 //@   requires @assumed p.lex != nil && forall(k, 0, len(options), options[k] != nil)
 //@   before call Definition.Lex#1: assert (old(filename) != "" ==> arg1 == old(filename)) && arg2 == r [C15]
 //@   before call (*participle.Parser[G]).parse#1: assert arg1 == lex && arg2 == options [C15]
 
 // Parser.Lex returns exactly the tokens of the parser's own (mapped) definition on (filename, r).
 //@ func (*Parser[G]).Lex [C15]
+//@   frame-tags C09
 //@   requires @assumed p.lex != nil
 //@   before call Definition.Lex#1: assert arg1 == filename && arg2 == r [C15]
 //@   before call lexer.ConsumeAll#1: assert arg0 == lex [C15]
@@ -486,6 +514,7 @@ package participle
 // Unquote's mapper: the value becomes the unquoted text; type and position are untouched; an invalid
 // escape sequence is a located error.
 //@ func Unquote$1 [C18 C06]
+//@   frame-tags C09
 //@   ensures result1 == nil ==> result0.Type == t.Type && result0.Pos == t.Pos
 //@   ensures result1 == nil && t.Value[0] == '`' ==> result0.Value == t.Value[1:len(t.Value)-1]
 //@   ensures result1 == nil && t.Value[0] != '`' ==> result0.Value == unq(t.Value[1:len(t.Value)-1], t.Value[0])
@@ -493,6 +522,7 @@ package participle
 
 // Upper's mapper: only the value changes.
 //@ func Upper$1 [C18]
+//@   frame-tags C09
 //@   ensures result1 == nil && result0.Type == token.Type && result0.Pos == token.Pos && result0.Value == uf("fn_strings.ToUpper_r0", "Str", token.Value)
 
 // A user Mapper: assumed to be a function of the token (it is called exactly once per token, see below).
@@ -503,6 +533,7 @@ package participle
 // The mapping lexer calls the mapper exactly once on every token of the inner lexer, in order, and
 // propagates lexing errors without calling it.
 //@ func (*mappingLexer).Next [C18 C15]
+//@   frame-tags C09
 //@   requires m.Lexer != nil && m.mapper != nil
 //@   before call Mapper.call#1: assert arg1 == t [C18]
 
@@ -562,6 +593,7 @@ package participle
 //@   function
 //@   ensures typeis(d, *mappingLexerDef) && d.(*mappingLexerDef) != nil ==> result == symsOf(d.(*mappingLexerDef).l)
 //@ func (*mappingLexerDef).Symbols [C06]
+//@   frame-tags C09
 //@   implements Definition.Symbols
 //@   requires m != nil && m.l != nil
 
@@ -598,6 +630,7 @@ package participle
 // The combined mapper built by Build: mappers registered for all tokens first, then those registered
 // for the token's own type, each applied once, in registration order, stopping at the first error.
 //@ func Build$1 [C18]
+//@   frame-tags C09
 //@   requires @assumed forall(k, 0, len(mappers[t.Type]), mappers[t.Type][k] != nil) && forall(k, 0, len(mappers[lexer.EOF]), mappers[lexer.EOF][k] != nil)
 //@   loop 1 invariant -1 <= rangeindex && rangeindex < len(combined)
 //@   loop 1 invariant len(combined) == len(mappers[lexer.EOF]) + len(mappers[old(t).Type])
@@ -610,6 +643,7 @@ package participle
 // The mapping definition wraps the lexer of the inner definition with the same mapper; it offers no
 // LexString/LexBytes fast path, so every entry point goes through the mapper (C15).
 //@ func (*mappingLexerDef).Lex [C18 C15]
+//@   frame-tags C09
 //@   requires m.l != nil
 //@   ensures result1 == nil ==> typeis(result0, *mappingLexer) && result0.(*mappingLexer).mapper == m.mapper && result0.(*mappingLexer).Lexer != nil
 //@   before call Definition.Lex#1: assert arg1 == filename && arg2 == r
@@ -963,6 +997,7 @@ package participle
 // own PeekingLexer and maps NextMatch to "no match". (custom productions call user code through
 // reflect.Value.Call, which this framework cannot see into: assumed to satisfy the same interface contract.)
 //@ func (*parseable).Parse [C06 C02 C01]
+//@   frame-tags C09
 //@   implements node.Parse
 //@   allow-kind typeassert "reflect.New(p.t) implements Parseable: established when the node was built (parseType)"
 
